@@ -55,6 +55,7 @@ type Config struct {
 	MaxDepth  int
 	JobTimeoutS int
 	Trace     bool
+	Witnesses int  // number of completed paths per harness run for which a model of the path condition is kept (translator validation)
 	Prune     bool // ask the solver whether each symbolic block guard is feasible before executing the block
 }
 
@@ -82,6 +83,7 @@ type Interp struct {
 	freshN    map[string]int
 
 	violations   []Violation
+	witnesses    []Violation
 	inconclusive []Inconclusive
 	reached      map[string]bool
 	reachSeen    map[string]bool
@@ -387,6 +389,14 @@ func (in *Interp) violationIf(cond *Term, kind, msg string) bool {
 	s.Push()
 	s.Assert(cond)
 	r := s.Check()
+	if r == Unknown && s.dead && s.Errors > 0 && s.Errors <= 3 {
+		// the session was lost to a solver-side error (e.g. a cancelled push under load): rebuild it and ask once more
+		in.restartSolver()
+		s.SetQueryTimeout(in.cfg.TimeoutMs)
+		s.Push()
+		s.Assert(cond)
+		r = s.Check()
+	}
 	in.oblig++
 	if len(in.samples) < 6 {
 		in.samples = append(in.samples, fmt.Sprintf("%s: %s @ %s [pc=%d conjuncts, decisions=%q] -> %s", kind, msg, in.where(), len(in.pc), in.decisionString(), r))
@@ -526,6 +536,7 @@ type HarnessResult struct {
 	Status       string         `json:"status"` // pass | violation | inconclusive | abort
 	Abort        string         `json:"abort,omitempty"`
 	Violations   []Violation    `json:"violations,omitempty"`
+	Witnesses    []Violation    `json:"witnesses,omitempty"`
 	Inconclusive []Inconclusive `json:"inconclusive,omitempty"`
 	Reach        map[string]bool `json:"reach"`
 	Paths        int            `json:"paths"`
